@@ -4029,5 +4029,6 @@ fn exact_div<N>(n: N, rhs: N) -> Option<N>
 where
     N: std::ops::Div<Output = N> + std::ops::Rem<Output = N> + std::cmp::PartialEq + Copy + Default,
 {
-    (n % rhs == N::default()).then_some(n / rhs)
+    // a zero divisor divides nothing (and must not reach `%`, which would panic)
+    (rhs != N::default() && n % rhs == N::default()).then(|| n / rhs)
 }
